@@ -549,6 +549,10 @@ class Interp:
         if len(segs) >= 2 and segs[-2] in self.prog.enum_index:
             vi = self.prog.variant_index(segs[-2], segs[-1])
             return Enum(segs[-2], vi, segs[-1])
+        # unit / empty tuple struct constants: `const Foo` / `const Foo()`
+        base = re.sub(r'\s*(\(\)|\{+\s*\}+)$', '', segs[-1])
+        if base in self.prog.src.structs and len(self.prog.src.structs[base]) == 0:
+            return Struct(base, ())
         m2 = re.match(r'^(.*)::\{constant#\d+\}$', st)
         # named constants
         for cand in (st, '::'.join(segs[-2:]), segs[-1]):
@@ -1121,6 +1125,9 @@ def explore(prog, models, run_path, stats=None, max_paths=1000000, max_steps=200
     Yields (I, kind, value) with kind in {'ok','panic','exit'}; infeasible paths are
     skipped.  Raises Truncated/EngineError upward (fail closed)."""
     stats = stats if stats is not None else PathStats()
+    if time_limit is None:
+        import os
+        time_limit = float(os.environ.get('VERIF_TASK_TIMEOUT', '1500'))
     solver = z3.Solver()
     work = [[]]
     t0 = time.time()
